@@ -434,17 +434,17 @@ func (g *gen) fuzzRaw() Op {
 	}
 	switch r.intn(8) {
 	case 0:
-		rq.Body = "{}"
+		rq.Body = []byte("{}")
 	case 1:
-		rq.Body = `{"schemaVersion":2,"mediaType":"` + mtOCIIndex + `","manifests":[]}`
+		rq.Body = []byte(`{"schemaVersion":2,"mediaType":"` + mtOCIIndex + `","manifests":[]}`)
 	case 2:
-		rq.Body = `{"schemaVersion":2,"config":{"mediaType":"x","digest":"sha256:zz","size":-1},"layers":[{"digest":""}]}`
+		rq.Body = []byte(`{"schemaVersion":2,"config":{"mediaType":"x","digest":"sha256:zz","size":-1},"layers":[{"digest":""}]}`)
 	case 3:
-		rq.Body = strings.Repeat("\xff\x00z", r.between(1, 2000))
+		rq.Body = []byte(strings.Repeat("\xff\x00z", r.between(1, 2000)))
 	case 4:
-		rq.Body = `{"schemaVersion":2,"manifests":[{"digest":"` + g.fuzzDigest() + `"}],"subject":{"digest":"` + g.fuzzDigest() + `"}}`
+		rq.Body = []byte(`{"schemaVersion":2,"manifests":[{"digest":"` + g.fuzzDigest() + `"}],"subject":{"digest":"` + g.fuzzDigest() + `"}}`)
 	case 5:
-		rq.Body = `[1,2,3]`
+		rq.Body = []byte(`[1,2,3]`)
 	}
 	switch r.intn(6) {
 	case 0:
